@@ -314,6 +314,7 @@ fn hist_opts(mark_all: bool) -> GraphOpts {
         wide: false,
         mega: false,
         symlinks: false,
+        read_above: true,
     }
 }
 
